@@ -73,11 +73,15 @@ var MergedArrival bool
 // without a task in between, so that they arrive at the same time.
 var BurstArrival bool
 
+// DirectBranch (>= 0, inclusive gateways only): the branch at that position has no task on it --
+// its sequence flow runs straight from the fork to the join.
+var DirectBranch = -1
+
 // GatewayTableLoop is GatewayTable with the whole block placed in a loop
 // (loop = true) so that the gateways are re-entered: after the block a
 // decision task writes `again`.
 func GatewayTableLoop(kind string, k, dpos, tokens, endBranch int, loop bool) *prog.Program {
-	b := prog.NewBuilder(fmt.Sprintf("%s_k%d_d%d_t%d_e%d_loop%v_m%v", kind, k, dpos, tokens, endBranch, loop, MergedArrival) + map[bool]string{true: "_burst", false: ""}[BurstArrival])
+	b := prog.NewBuilder(fmt.Sprintf("%s_k%d_d%d_t%d_e%d_loop%v_m%v", kind, k, dpos, tokens, endBranch, loop, MergedArrival) + map[bool]string{true: "_burst", false: ""}[BurstArrival] + map[bool]string{true: fmt.Sprintf("_direct%d", DirectBranch), false: ""}[DirectBranch >= 0])
 	s := b.AddNode("start", "")
 	dt := b.AddNode("task", "")
 	var merge string
@@ -134,6 +138,16 @@ func GatewayTableLoop(kind string, k, dpos, tokens, endBranch int, loop bool) *p
 	}
 	ci := 0
 	for pos := 0; pos < total; pos++ {
+		if pos == DirectBranch && join != "" && pos != endBranch {
+			if pos == dpos {
+				b.N(gw).Default = b.Connect(gw, join, prog.Cond{})
+			} else {
+				b.Connect(gw, join, prog.Cond{K: "eq", V: fmt.Sprintf("c%d", ci), C: 1})
+				ci++
+			}
+			b.P.Tags = append(b.P.Tags, "direct-branch")
+			continue
+		}
 		t := b.AddNode("task", "")
 		var f string
 		if pos == dpos {
